@@ -65,3 +65,24 @@ Definition parse_ns_mismatches (binds : list (pystr * term)) (cs : list (term * 
                       | Some t => term_eqb t (snd c)
                       | None => false
                       end) 0 cs.
+
+(* histories on one target manager: containers, operations, and the dump() the
+   implementation produced after every operation (printed target, printed
+   expression); the model must produce the same lists in the same order *)
+Definition dump_chars (pr : list N) (fl : list (N * pystr)) (ts : list taskdef) : list (pystr * pystr) :=
+  map (fun d => (show (mk_printable pr) (mk_float fl) (fst d), show (mk_printable pr) (mk_float fl) (snd d))) ts.
+
+Definition pair_eqb (a b : pystr * pystr) : bool := pystr_eqb (fst a) (fst b) && pystr_eqb (snd a) (snd b).
+
+Definition hist_ok (pr : list N) (fl : list (N * pystr))
+  (c : list (pystr * term) * list mop * list (list (pystr * pystr))) : bool :=
+  let '(cs, ops, dumps) := c in
+  match mrun 400 {| ms_containers := cs; ms_tasks := [] |} ops with
+  | Some sts => list_eqb (list_eqb pair_eqb) (map (fun s => dump_chars pr fl (ms_tasks s)) sts) dumps
+                && forallb (fun s => list_eqb (fun a b => pystr_eqb (fst a) (fst b) && term_eqb (snd a) (snd b)) (ms_containers s) cs) sts
+  | None => false
+  end.
+
+Definition hist_mismatches (pr : list N) (fl : list (N * pystr))
+  (cs : list (list (pystr * term) * list mop * list (list (pystr * pystr)))) : list nat :=
+  mism_from (hist_ok pr fl) 0 cs.
